@@ -12,6 +12,7 @@ mod formats;
 mod host;
 mod mach;
 mod props;
+mod tape;
 
 use driver::{Run, Tier};
 
@@ -138,6 +139,12 @@ fn real_main() -> i32 {
         "C04" => c04,
         "C05" => c05,
         "C06" => c06,
+        "C07" => c07,
+        "C08" => c08,
+        "C09" => c09,
+        "C10" => c10,
+        "C11" => c11,
+        "C12" => c12,
         "C17" => c17,
         "C20" => c20,
     )
